@@ -14,11 +14,11 @@ st=PASS
   echo "== test files touched:"; n=$(git diff --name-only | grep -c "_test.go"); echo $n; [ "$n" = 0 ] || st=FAIL
   [ -z "$(git status --short | grep -v '^ M')" ] || { echo "untracked/other changes present"; st=FAIL; }
   echo "== build"; go build ./... 2>&1 | tail -5; [ ${PIPESTATUS[0]} = 0 ] || st=FAIL
-  echo "== full suite with patch"; go test -vet=off -count=1 -p 4 ./... > $out/confirm_suite.log 2>&1; rc=$?; echo "rc=$rc"; grep -v "^ok\|no test files" $out/confirm_suite.log | tail -30
+  echo "== full suite with patch"; go test -vet=off -count=1 -p 4 -timeout 60m ./... > $out/confirm_suite.log 2>&1; rc=$?; echo "rc=$rc"; grep -v "^ok\|no test files" $out/confirm_suite.log | tail -30
   if [ $rc != 0 ]; then
     echo "== rerun failing packages once (timing flakes under load)"
     pk=$(grep "^FAIL\s" $out/confirm_suite.log | awk '{print $2}' | grep / | sort -u)
-    go test -vet=off -count=1 $pk 2>&1 | tail -15; [ ${PIPESTATUS[0]} = 0 ] || st=FAIL
+    go test -vet=off -count=1 -timeout 60m $pk 2>&1 | tail -15; [ ${PIPESTATUS[0]} = 0 ] || st=FAIL
   fi
   IFS=, read -ra D <<< "$dirs"
   copied=()
